@@ -42,6 +42,14 @@ static void crash_event(const char *why)
     }
     _exit(3);
 }
+namespace sev
+{
+// for handlers that run their own watchdog (signals are deferred by some sanitizer runtimes while threads spin)
+void fatal_event(const char *why)
+{
+    crash_event(why);
+}
+} // namespace sev
 static void on_signal(int sig)
 {
     crash_event(sig == SIGSEGV   ? "SIGSEGV"
@@ -59,7 +67,13 @@ static void on_terminate()
 // Replaceable allocation functions backed by malloc, with an optional cap: a request above the cap throws
 // bad_alloc (attacker-controlled sizes in archives then fail fast, also under ASan, whose own operator new
 // treats a refused request as fatal).
+#if defined(__has_feature)
+#if __has_feature(thread_sanitizer)
+#define SEV_NO_NEW_REPLACEMENT 1 // (the ThreadSanitizer runtime defines the allocation functions itself)
+#endif
+#endif
 static size_t sev_new_cap = (size_t)-1;
+#ifndef SEV_NO_NEW_REPLACEMENT
 static void *sev_alloc(size_t n)
 {
     if (n > sev_new_cap)
@@ -85,6 +99,7 @@ void operator delete(void *p) noexcept { free(p); }
 void operator delete[](void *p) noexcept { free(p); }
 void operator delete(void *p, size_t) noexcept { free(p); }
 void operator delete[](void *p, size_t) noexcept { free(p); }
+#endif
 
 int main(int argc, char **argv)
 {
